@@ -186,6 +186,9 @@ template <class Writer> class ThreadedBufferedStream : public FakeOStream<Thread
         SpillBuffer();
         assert(current_ + amount <= end_);
       }
+#ifdef PREPROCESS_VERIF
+      PREPROCESS_VERIF_YIELD("tbs.write.rest");
+#endif
       return current_;
     }
 
